@@ -258,6 +258,12 @@ def run_check(pid, cfg, tier_name, seed, tmp):
             lim = sub.get("mem_kb", 8 * 1024 * 1024)
             logf = open(os.path.join(out, "log.txt"), "w")
             pre = "ulimit -v %d; exec \"$@\"" % lim if not cfg.get("race") else "exec \"$@\""
+            waves = sub.get("waves", {}).get(tier_name, 1)
+            if waves > 1:
+                # the same shard as several processes one after another (for checks whose
+                # moment of interest comes once per process); each writes its own stats file
+                pre = ("i=0; while [ $i -lt %d ]; do VERIF_SHARD=$((%d+i)) \"$@\" -rapid.seed $((%d+i)) || exit $?; i=$((i+1)); done"
+                       % (waves, sh * 10000, rapid_seed(seed, si, sh)))
             p = subprocess.Popen(["bash", "-c", pre, "sh"] + args, cwd=tmp, env=env, stdout=logf, stderr=subprocess.STDOUT)
             procs.append((si, sh, sub, out, p, logf))
 
